@@ -54,7 +54,7 @@ DumpProbes ==
 DumpOK(v) ==
   \/ (ExcuseKnown /\ DumpClasses(v) # {})
   \/ LET rs == Restored(v) IN
-     /\ ObsEq(v, rs)
+     /\ ObsEq(v, rs) /\ HiddenEq(v, rs)
      /\ \A p \in DumpProbes : ObsEq(FeedStr(v, p).vt, FeedStr(rs, p).vt)
 JudgeFn(pre, fn, r) ==
   /\ JudgeCall(pre, Functions(pre.p, Enc(fn)), r)
